@@ -1,10 +1,11 @@
 """C08 - what the wallet says in memory is what a restart would say.
 
 Leg A: coq/Properties/C08.v (theorems over coq/Addr/MemDisk.v).
-Leg B: harness/cmd/c08 drives the real waddrmgr through histories of committed
-and rolled-back database transactions; after every transaction a fresh
-waddrmgr.Open on a copy of the database is asked the same questions as the
-running manager.  coq/Addr/MemDiskCorr.v replays every history on the model
+Leg B: harness/cmd/c08 drives the real waddrmgr (and wallet.Wallet) through
+histories of committed and rolled-back database transactions; after every
+transaction a fresh waddrmgr.Open on a copy of the database, brought to the
+lock state of the running manager, is asked the same questions as the running
+manager.  coq/Addr/MemDiskCorr.v replays every history on the model
 and compares per-operation outcomes, the running manager's answers and the
 fresh manager's answers.
 """
@@ -15,7 +16,7 @@ ERR = {
     "ErrInvalidAccount": "EInvalidAccount", "ErrTooManyAddresses": "ETooManyAddresses",
     "ErrDuplicateAddress": "EDuplicateAddress", "ErrBlockNotFound": "EBlockNotFound",
     "ErrAddressNotFound": "EAddressNotFound", "ErrBirthdayBlockNotSet": "EBirthdayBlockNotSet",
-    "ErrDatabase": "EDatabase", "panic": "EPanic",
+    "ErrDatabase": "EDatabase", "ErrLocked": "ELocked", "panic": "EPanic",
 }
 FATE = {"commit": "Commit", "abort": "AbortCaller", "dryrun": "AbortDryRun", "failcommit": "CommitFails"}
 CODES = {1: "model:operation_outcome", 2: "model:running_manager_answers", 3: "model:fresh_manager_answers",
@@ -75,6 +76,8 @@ def r_query(q):
 
 
 READS = {"lookup", "last", "props", "lookupname", "acctname", "lastacct", "synced", "blockhash", "birthday", "bdayblock"}
+# operations and queries of the root manager: part of every scope's projection of a two-scope history
+ROOT = {"setsynced", "setsyncednil", "setbirthday", "setbdayblock", "lock", "unlock", "synced", "blockhash", "birthday", "bdayblock"}
 
 
 def r_op(o):
@@ -103,9 +106,15 @@ def r_op(o):
         return "OSetBdayBlock %s %s" % (r_stamp(o["h"], o["hash"], o["t"]), cbool(o["ver"]))
     if k == "impkey":
         bs = "None" if (o["hash"] < 0 and not o["priv"]) else "(Some %s)" % r_stamp(o["h"], o["hash"], o["t"])
-        return "OImport (ImpKey %s) %s" % (cN(o["key"]), bs)
+        return "OImport (ImpKey %s) %s %s" % (cN(o["key"]), bs, cbool(o["priv"]))
     if k == "impscript":
-        return "OImport (ImpScript %s) (Some %s)" % (cN(o["key"]), r_stamp(o["h"], o["hash"], o["t"]))
+        return "OImport (ImpScript %s) (Some %s) false" % (cN(o["key"]), r_stamp(o["h"], o["hash"], o["t"]))
+    if k == "lock":
+        return "OLock"
+    if k == "unlock":
+        return "OUnlock"
+    if k == "invalidate":
+        return "OInvalidate %s" % cN(o["acct"])
     raise ValueError("unknown op " + k)
 
 
@@ -123,10 +132,14 @@ def r_ans(a):
         return "AAddr %s %s %s %s %s %s %s" % (r_addr(a["ref"]), cN(a["acct"]), cbool(a["internal"]), cbool(a["imported"]),
                                                cbool(a["used"]), cN(a.get("ty", 0)), cN(a.get("fp", 0)))
     if k == "last":
-        return "ALast %s" % r_addr(a["ref"])
+        return "ALast %s %s %s" % (r_addr(a["ref"]), cN(a.get("ty", 0)), cN(a.get("fp", 0)))
     if k == "props":
-        kind = "(Some %s)" % r_wo(a.get("key", 0), a.get("fp", 0), a.get("sch")) if a.get("wo") else "None"
-        return "AProps %s %s %s %s %s" % (nn(a["name"]), cN(a["ext"]), cN(a["intn"]), cN(a["imp"]), kind)
+        # an imported account reports one of the xpubs the harness imported (key >= 0)
+        imported = a.get("key", -1) >= 0
+        kind = "(Some %s)" % r_wo(a["key"], a.get("fp", 0), a.get("sch")) if imported else "None"
+        if not imported and (a.get("fp", 0) or a.get("sch")):
+            kind = "(Some %s)" % r_wo(UNKNOWN, a.get("fp", 0), a.get("sch"))     # never what the model says
+        return "AProps %s %s %s %s %s %s" % (nn(a["name"]), cN(a["ext"]), cN(a["intn"]), cN(a["imp"]), kind, cbool(a.get("wo", False)))
     if k == "name":
         return "AName %s" % nn(a["name"])
     if k == "stamp":
@@ -147,16 +160,29 @@ def r_qas(qas):
     return qs, rs, fs
 
 
-def r_case(c):
+def r_out(a):
+    # an outcome the wallet API does not let the harness see
+    return "None" if a["k"] == "any" else "(Some (%s))" % r_ans(a)
+
+
+def nscopes(c):
+    return 2 if c["in"].get("scope2") else 1
+
+
+def r_case(c, s=0):
+    """the history as scope number s of the manager sees it: the operations and queries that address
+    this scope, and the root manager's (sync state, birthday, lock)"""
     i, o = c["in"], c["obs"]
-    q0, r0, f0 = r_qas(o["q0"] or [])
+    mine = lambda x: x["k"] in ROOT or x.get("sc", 0) == s      # noqa: E731
+    q0, r0, f0 = r_qas([e for e in o["q0"] or [] if mine(e["q"])])
     txs = []
     for t, to in zip(i["txs"], o["txs"]):
-        qs, rs, fs = r_qas(to["q"] or [])
+        qs, rs, fs = r_qas([e for e in to["q"] or [] if mine(e["q"])])
+        keep = [(x, a) for x, a in zip(t["ops"] or [], to["outs"] or []) if mine(x)]
         txs.append("\n   ({| tx_ops := %s; tx_fate := %s; tx_queries := %s |},\n    {| to_outs := %s; to_run := %s; to_fresh := %s |})" % (
-            clist([r_op(x) for x in t["ops"] or []]), FATE[t["fate"]], qs,
-            clist([r_ans(a) for a in to["outs"] or []]), rs, fs))
-    sch = o["init"]["sch"]
+            clist([r_op(x) for x, _ in keep]), FATE[t["fate"]], qs,
+            clist([r_out(a) for _, a in keep]), rs, fs))
+    sch = o["init"]["sch2" if s == 1 else "sch"]
     return ("{| tc_schema := (%s, %s); tc_genesis_time := %s; tc_birthday := %s;\n  tc_q0 := %s; tc_q0_run := %s; tc_q0_fresh := %s;\n  tc_txs := %s |}" % (
         cN(sch[0]), cN(sch[1]), cZ(o["init"]["t"]), cZ(o["init"]["birthday"]), q0, r0, f0, clist(txs)))
 
@@ -171,49 +197,59 @@ class KindAt(str):
 
 class C08(Check):
     ID = "C08"
-    N_QUICK = 120
+    N_QUICK = 100
     N_THOROUGH = 2500
     SHARD = 12
-    RULE = ("real waddrmgr (Create with FastScryptOptions, one of the scopes BIP0084/BIP0044, unlocked) on a real bbolt file behind "
-            "harness/internal/abortdb; 116 systematic histories (every write operation alone in an aborted / dry-run / failed-commit "
+    RULE = ("real waddrmgr (Create with FastScryptOptions, scopes BIP0084/BIP0044) on a real bbolt file behind "
+            "harness/internal/abortdb; ~150 systematic histories (every write operation alone in an aborted / dry-run / failed-commit "
             "transaction, cold and warm caches, followed by a committed issuance; same-transaction patterns; imported xpub accounts "
-            "- NewAccountWatchingOnly with/without fingerprint and address-schema override - cached, used, renamed in committed and "
-            "rolled-back transactions, extended, number reuse); 12 (thorough 150) histories "
-            "through the real wallet.Wallet on a funded wallet: NewAddress, NewChangeAddress, CreateSimpleTx and CreateSimpleTx(dryRun=true); "
-            "random histories of 3-8 (thorough 3-12) transactions x 1-3 operations, fate commit/caller abort/ErrDryRunRollBack/failed "
-            "commit, three generator modes (wild; aborted transactions hold only issuance+reads = the dry-run scenario; aborted "
-            "transactions hold only operations without eager memory updates); half of the random histories import xpub accounts (5 xpubs "
-            "derived in the harness from other seeds, each imported at most once). After EVERY transaction the file is copied (DB.Copy), opened "
-            "with a fresh waddrmgr.Open, and both managers answer: AccountProperties/AccountName/LastExternal/LastInternalAddress for every "
-            "account and the next unused number, the imported account, LookupAccount for every name, LastAccount, Address()+Used() for "
-            "every address issued by a committed transaction, the last derived and the next 3 unissued indices per branch, all import "
-            "candidates, SyncedTo, Birthday, BirthdayBlock, BlockHash for recent heights. Compared: per-operation outcomes and both answer "
-            "columns with the Coq model; AccountProperties is compared incl. IsWatchOnly / imported xpub / MasterKeyFingerprint / AddrSchema, Address() incl. "
-            "AddrType and DerivationInfo fingerprint; the fresh manager is unlocked like the running one. running vs fresh = the oracle. non-trivial = history holds a rolled-back transaction with a write "
-            "operation AND a later committed transaction; distinct by input")
-    ASSUMPTIONS = ["manager stays unlocked (and is not itself watch-only); one key scope per history (scoped managers share no cache); "
-                   "accounts are default or imported-xpub (watch-only) accounts",
+            "- NewAccountWatchingOnly with/without fingerprint and address-schema override - cached, used, renamed, EXTENDED (cold, warm, "
+            "locked, rolled back), number reuse; the LOCKED manager: issuance / extension / last-address queries / refused operations / "
+            "lock inside a rolled-back transaction / Unlock re-loading evicted accounts; InvalidateAccountCache: what "
+            "wallet.ImportAccountDryRun does to the manager with and without its eviction, eviction curing an eager update, evict-and-reload "
+            "inside a rolled-back transaction; two key scopes of one manager in one transaction); 12 (thorough 150) histories through the real "
+            "wallet.Wallet on a funded wallet: NewAddress, NewChangeAddress, CreateSimpleTx, CreateSimpleTx(dryRun=true), ImportAccount, "
+            "ImportAccountDryRun, issuance from imported accounts; random histories of 3-8 (thorough 3-12) transactions x 1-3 operations, "
+            "fate commit/caller abort/ErrDryRunRollBack/failed commit, three generator modes (wild; aborted transactions hold only "
+            "issuance+reads = the dry-run scenario; aborted transactions hold only operations without eager memory updates); half of the "
+            "random histories import xpub accounts (5 xpubs per scope derived in the harness from other seeds, each imported at most once), "
+            "a third lock/unlock the manager between and inside transactions, a sixth address two key scopes, all may evict accounts. After "
+            "EVERY transaction the file is copied (DB.Copy), opened with a fresh waddrmgr.Open BROUGHT TO THE LOCK STATE OF THE RUNNING "
+            "MANAGER, and both managers answer: AccountProperties/AccountName/LastExternal/LastInternalAddress for every account and the next "
+            "unused number, the imported account, LookupAccount for every name, LastAccount, Address()+Used() for every address issued by a "
+            "committed transaction, the last derived and the next 3 unissued indices per branch, all import candidates, SyncedTo, Birthday, "
+            "BirthdayBlock, BlockHash for recent heights - per scope. Compared with the Coq model: per-operation outcomes (either of two "
+            "failing guards accepted) and both answer columns, incl. IsWatchOnly / imported xpub / MasterKeyFingerprint / AddrSchema of an "
+            "account and AddrType + DerivationInfo fingerprint of every address and last address; compared between running and restarted manager "
+            "in addition: the full DerivationInfo (scope, InternalAccount, Account, Branch, Index) and the PubKey bytes. running vs restarted = the "
+            "oracle. non-trivial = history holds a rolled-back transaction with a write operation AND a later committed transaction; distinct by input")
+    ASSUMPTIONS = ["the manager is not itself watch-only; accounts are default or imported-xpub (watch-only) accounts; Lock/Unlock (right "
+                   "passphrase) are in the alphabet, ChangePassphrase / ConvertToWatchingOnly / NewScopedKeyManager are not",
+                   "two key scopes of one manager are checked by running the one-scope model once per scope on the operations of that "
+                   "scope plus the root manager's (sync state, birthday, lock state): scoped managers share no cache; in two-scope "
+                   "histories no import moves the (shared) start block",
                    "a chained address is identified with (account number, branch, index): with imported accounts a rolled-back "
-                   "transaction never reads an account it has just created (a later account could reuse the number with another key), "
-                   "and an xpub is imported at most once per history",
-                   "ExtendAddresses on an imported account while unlocked panics on the pinned code (finding S3, C03); the model transcribes "
-                   "the panic, the harness probes it at start-up and stops extending imported accounts if the source stops panicking",
+                   "transaction never reads an account it has just created unless it evicts it again (a later account could reuse the "
+                   "number with another key), and an xpub is imported at most once per history and scope",
+                   "an OnCommit closure finds its account entry by number when it runs (Go: by pointer): no generated committed "
+                   "transaction evicts an account after issuing from it (such transactions are counted into K)",
                    "block time stamps handed to SetSyncedTo lie in [0, 2^32) seconds (the database keeps 32 bits)",
                    "heights/indices far below the int32/uint32 limits; fault-free database (write faults are C10)",
                    "addresses are identified with their derivation path through a table derived in the harness with hdkeychain",
-                   "model parameter rb (does nextAddresses cache the read-back address before commit) = "
-                   "Generated/AddrCache.next_caches_read_back, regenerated from waddrmgr/scoped_manager.go by lib/extract_c08.py; "
-                   "the theorems hold for both values",
-                   "three transcribed assumptions (indices only in the registered OnCommit closure; extend and rename update memory "
-                   "before commit, rename for both row kinds) are regenerated too and obliged to be true "
-                   "(C08_model_assumptions_hold_in_source); when the source shape is not recognised all four facts are determined by "
+                   "model parameters (Generated/AddrCache.v, regenerated from waddrmgr/scoped_manager.go by lib/extract_c08.py): "
+                   "next_caches_read_back, extend_updates_memory_eagerly, rename_updates_memory_eagerly; the theorems hold for all eight "
+                   "values, so repairing S10/S11 (memory update moved into an OnCommit closure) changes a parameter, not an obligation; "
+                   "the harness measures the three on the built code at start-up and the check FAILS if they differ from the generated ones",
+                   "three transcribed assumptions (indices only in the registered OnCommit closure of nextAddresses; RenameAccount treats "
+                   "both row kinds alike; extendAddresses records the master-key fingerprint) are regenerated too and obliged to be true "
+                   "(C08_model_assumptions_hold_in_source); when the source shape is not recognised all facts are determined by "
                    "running the built code on their witness scenarios (harness/cmd/extract-c08); evidence field facts_source says "
                    "which path ran"]
     PARTIAL_CLAUSES = ["the equivalence is proved for histories outside the trigger pattern K (in_K of coq/Addr/MemDisk.v); inside K it is "
                        "refuted by witnesses (C08_refuted_at_K) and the run reports the divergences as findings",
                        "'the next committed request issues the very address a restarted wallet would issue' is proved outside K_idx "
-                       "(aborted extend, aborted new-account read back, extend after next-addresses in one committed transaction) and "
-                       "refuted by witnesses inside"]
+                       "(aborted eager extend, an account loaded from a row the aborted transaction changed and not evicted again, "
+                       "eager extend after next-addresses in one committed transaction) and refuted by witnesses inside"]
 
     def nontrivial(self, c):
         seen_abort_write = False
@@ -251,6 +287,7 @@ class C08(Check):
         return case
 
     def render_cases(self, cases):
+        # one model case per (history, scope)
         return """From stdpp Require Import gmap list numbers.
 From Coq Require Import ZArith NArith.
 From Verif Require Import Addr.MemDisk Addr.MemDiskCorr.
@@ -258,7 +295,7 @@ Definition cases : list tcase :=
 %s.
 Definition bad := Eval vm_compute in failures cases.
 Print bad.
-""" % clist(["\n " + r_case(c) for c in cases])
+""" % clist(["\n " + r_case(c, s) for c in cases for s in range(nscopes(c))])
 
     def evaluate_model(self, cases):
         import concurrent.futures as cf
@@ -280,8 +317,9 @@ Print bad.
                 problems.append("correspondence: could not parse model output: " + out[-500:])
                 continue
             nums = [int(x) for x in re.findall(r"\d+", printed)]
+            owner = [start + k for k, c in enumerate(cases[start:start + self.SHARD]) for _ in range(nscopes(c))]
             for j in range(0, len(nums) - 2, 3):
-                detail.setdefault(start + nums[j], []).append((nums[j + 1], nums[j + 2]))
+                detail.setdefault(owner[nums[j]], []).append((nums[j + 1], nums[j + 2]))
         for ci, fl in sorted(detail.items()):
             c = cases[ci]
             c["model_failures"] = [dict(tx=t - 1, what=CODES.get(code, str(code))) for t, code in fl[:8]]
@@ -293,7 +331,35 @@ Print bad.
                     c["oracle"].append(k)
             if any(code == 5 for _, code in fl):
                 problems.append("generator produced an inadmissible case (index %d)" % ci)
+        problems.extend(self.harness_problems(cases))
         return mism, logs, problems
+
+    # harness tag -> regenerated fact of coq/Generated/AddrCache.v that must say the same
+    PROBED = {"read_back_cached": "next_caches_read_back", "extend_eager": "extend_updates_memory_eagerly",
+              "rename_eager": "rename_updates_memory_eagerly"}
+
+    def harness_problems(self, cases):
+        """Conditions under which the run cannot vouch for the tie between model and code.  They FAIL the
+        check (a `problems` entry = broken obligation), they are never just a tag:
+          - anything a case reports in its `problems` field (e.g. a wallet call of a generated history failed,
+            so the history no longer describes what ran);
+          - the harness measured at start-up, on the built code, WHEN issuance / extension / rename touch memory;
+            the model takes the same facts from Generated/AddrCache.v.  If they disagree the model describes
+            other code than the one that ran."""
+        out = []
+        for c in cases:
+            for p in c.get("problems") or []:
+                if p not in out:
+                    out.append(p)
+        facts = self.facts_source()["regenerated_facts"]
+        for tagname, fact in self.PROBED.items():
+            seen = {t[len(tagname) + 1:] for c in cases for t in c.get("tags", []) if t.startswith(tagname + "_")}
+            if not cases:
+                continue
+            if len(seen) != 1 or fact not in facts or seen != {facts[fact]}:
+                out.append("model no longer follows the code: the harness measured %s=%s on the built code, "
+                           "coq/Generated/AddrCache.v says %s=%s" % (tagname, "/".join(sorted(seen)) or "?", fact, facts.get(fact, "?")))
+        return ["harness: " + p for p in out]
 
     def explained_by_known(self, case):
         # the model follows the code also inside K: a model/implementation
@@ -315,10 +381,11 @@ Print bad.
 
     def extra_coverage(self, cases):
         k = sum(1 for c in cases if "in_K" in c.get("tags", []))
-        return dict(self.facts_source(), K="in_K rb (coq/Addr/MemDisk.v): an aborted transaction holding rename / set-synced-to / set-birthday / extend / import, "
-                      "or new-account followed by Address/LastAddress/AccountProperties, or next-addresses (rb=true: always; rb=false: when "
-                      "followed by Address); a committed transaction holding extend after next-addresses on the same account and branch, "
-                      "or SetSyncedTo(nil)",
+        return dict(self.facts_source(), K="in_K P (coq/Addr/MemDisk.v): an aborted transaction holding set-synced-to / set-birthday / import, "
+                      "or (while eager in the source) rename / extend / next-addresses, or one that changed account rows (new account, "
+                      "deferred rename, eviction) and then loaded an account it did not evict again, or looked an address up after that or "
+                      "after writing address rows; a committed transaction holding an eager extend after next-addresses on the same account "
+                      "and branch, SetSyncedTo(nil), or the eviction of an account with a pending closure",
                     wallet_api_histories=sum(1 for c in cases if c["in"].get("wallet")),
                     histories_in_K=k, histories_outside_K=len(cases) - k,
                     histories_outside_K_with_divergence=sum(1 for c in cases if "outside_K" in c.get("tags", []) and c.get("oracle")),
